@@ -10,9 +10,14 @@ import (
 	"crypto/sha256"
 	"crypto/x509"
 	"crypto/x509/pkix"
+	"encoding/base64"
 	"encoding/hex"
 	"encoding/pem"
+	"fmt"
 	"math/big"
+	"os"
+	"sort"
+	"strings"
 	"sync"
 	"time"
 
@@ -104,6 +109,13 @@ var farFuture = time.Date(2100, 1, 1, 0, 0, 0, 0, time.UTC)
 func PKI() map[string]*Identity {
 	pkiOnce.Do(func() {
 		pki = map[string]*Identity{}
+		if len(fixtureData) > 0 {
+			// the committed fixture set: the same bytes in every process
+			// (key generation is not a function of the seeded random stream)
+			loadFixtures()
+			return
+		}
+		defer dumpFixtures()
 		cs := []x509.ExtKeyUsage{x509.ExtKeyUsageCodeSigning}
 		cl := []x509.ExtKeyUsage{x509.ExtKeyUsageClientAuth}
 		// signing keys
@@ -149,6 +161,83 @@ func PKI() map[string]*Identity {
 	})
 	return pki
 }
+
+func loadFixtures() {
+	for name, f := range fixtureData {
+		kder, err := base64.StdEncoding.DecodeString(f[0])
+		if err != nil {
+			panic(err)
+		}
+		k, err := x509.ParsePKCS8PrivateKey(kder)
+		if err != nil {
+			panic(err)
+		}
+		cder, err := base64.StdEncoding.DecodeString(f[1])
+		if err != nil {
+			panic(err)
+		}
+		cert, err := x509.ParseCertificate(cder)
+		if err != nil {
+			panic(err)
+		}
+		key := k.(crypto.Signer)
+		spki, _ := x509.MarshalPKIXPublicKey(key.Public())
+		sum := sha256.Sum256(spki)
+		pki[name] = &Identity{Name: cert.Subject.CommonName, Key: key, Cert: cert,
+			CertPEM:     pem.EncodeToMemory(&pem.Block{Type: "CERTIFICATE", Bytes: cder}),
+			Fingerprint: hex.EncodeToString(sum[:])}
+	}
+	for name, f := range fixtureData {
+		if f[2] != "" {
+			pki[name].Issuer = pki[f[2]]
+		}
+	}
+	// identities that share one key share the key object
+	for _, n := range []string{"ca-1-client-a-self", "ca-1-client-a-otherca", "ca-1-client-a-lapsed"} {
+		if pki[n] != nil {
+			pki[n].Key = pki["ca-1-client-a"].Key
+		}
+	}
+}
+
+// dumpFixtures writes the freshly generated set as Go source when
+// VERIF_DUMP_FIXTURES names a file (how fixtures_gen.go is made).
+func dumpFixtures() {
+	path := os.Getenv("VERIF_DUMP_FIXTURES")
+	if path == "" {
+		return
+	}
+	var names []string
+	for n := range pki {
+		names = append(names, n)
+	}
+	sort.Strings(names)
+	var sb strings.Builder
+	sb.WriteString("package world\n\n// Code generated by VERIF_DUMP_FIXTURES; DO NOT EDIT.\n// Test-only keys and certificates of the simulated PKI (name -> PKCS#8 key, certificate, issuer).\n\nfunc init() {\n\tfixtureData = map[string][3]string{\n")
+	for _, n := range names {
+		id := pki[n]
+		kder, err := x509.MarshalPKCS8PrivateKey(id.Key)
+		if err != nil {
+			panic(err)
+		}
+		issuer := ""
+		if id.Issuer != nil {
+			for _, m := range names {
+				if pki[m] == id.Issuer {
+					issuer = m
+				}
+			}
+		}
+		fmt.Fprintf(&sb, "\t\t%q: {%q, %q, %q},\n", n, base64.StdEncoding.EncodeToString(kder), base64.StdEncoding.EncodeToString(id.Cert.Raw), issuer)
+	}
+	sb.WriteString("\t}\n}\n")
+	if err := os.WriteFile(path, []byte(sb.String()), 0o644); err != nil {
+		panic(err)
+	}
+}
+
+// fixtureData is filled by fixtures_gen.go.
+var fixtureData map[string][3]string
 
 // KeyPEM returns the PKCS#8 PEM of an identity's private key.
 func (id *Identity) KeyPEM() []byte {
